@@ -1,8 +1,9 @@
 """C14 — HashToPoint is the specified SHAKE-256 rejection sampler.
 
 Decided on the MIR of `hash_to_point` for every input string and both degrees:
- (1) the XOF is sha3's SHAKE-256, absorbed exactly once with exactly the input slice, squeezed two bytes at a time;
- (2) the two bytes are combined big-endian;
+ (1) the XOF is sha3's SHAKE-256, absorbed exactly once with exactly the input slice;
+ (2) candidates are consecutive big-endian byte pairs of the output stream, rejected candidates consume their two bytes
+     (decided on a pinned stream prefix, however the bytes are read);
  (3) the coefficient is pushed iff t in [0, 61444] (= 5q - 1), for t over the whole 16-bit range;
  (4) the pushed value is t mod q, canonical;
  (5) the result has exactly n coefficients and `n` influences nothing but the loop exit test
@@ -80,7 +81,7 @@ def core(R, S, PFX):
         ab = ev["absorb"]
         ok = len(ab) == 1 and type(ab[0][0]) is Pt and ab[0][0].key == ("h", "string") and not ab[0][0].proj
         R.check(ok, PFX + "-absorb", site, "exactly one `update`, with exactly the input slice", f"absorb events: {ab}", key=f"absorb|{n}")
-        R.check(ev["squeeze"] and all(x == 2 for x in ev["squeeze"]), PFX + "-squeeze", site, "every squeeze reads exactly 2 bytes", f"squeeze sizes {ev['squeeze']}", key=f"squeeze|{n}")
+        R.check(bool(ev["squeeze"]), PFX + "-squeeze", site, f"the XOF reader is squeezed ({len(ev['squeeze'])} abstract read(s))", "no squeeze observed", key=f"squeeze|{n}")
         # (3),(4) predicate and reduction
         news = ev["new"]
         if not news:
@@ -104,15 +105,21 @@ def core(R, S, PFX):
             R.check(ei is not None and 0 <= ei[0] and ei[1] <= Q - 1, PFX + "-range", site + " (result)", f"coefficients in {ei}", key=f"resrange|{n}")
         else:
             R.violation(PFX + "-len", site, "no return", key=f"len|{n}")
-    # (2) byte order: pin one byte to zero
-    outs, _ = go(512, hook=lambda i: (0, 0) if i == 0 else (0, 255))
-    t_a = ev["new"][0][2] if ev["new"] else None
-    outs, _ = go(512, hook=lambda i: (0, 255) if i == 0 else (0, 0))
-    t_b = ev["new"][0][2] if ev["new"] else None
-    ctx.hooks.pop("xof_bytes", None)
-    R.check(t_a == (0, 255) and t_b is not None and t_b[0] == 0 and t_b[1] == min(0xFF00, HASH_REJECT - 1), PFX + "-endian", "hash_to_point",
-            "first byte is the high byte (big-endian): byte0=0 gives t in [0,255]; byte1=0 gives t up to 0xFF00 (capped by the accept range)",
-            f"byte0=0 -> t in {t_a}; byte1=0 -> t in {t_b}", key="endian")
+    # (2) byte order and stream consumption, by pinning a prefix of the XOF output stream (absolute positions; everything
+    # after it unknown): candidates are consecutive big-endian byte pairs, a rejected candidate consumes its two bytes,
+    # and the pushed values are t mod q in stream order. Independent of how the bytes are read (two at a time, one at
+    # a time, through from_be_bytes, ..).
+    prefix = [0x12, 0x34, 0xFF, 0xFF, 0x00, 0x07, 0xF0, 0x04, 0xF0, 0x05, 0xAB, 0xCD]
+    ts = [(prefix[2 * j] << 8) | prefix[2 * j + 1] for j in range(len(prefix) // 2)]
+    want = [t % Q for t in ts if t < HASH_REJECT]
+    ctx.hooks["xof_stream"] = lambda i: (prefix[i], prefix[i]) if i < len(prefix) else (0, 255)
+    outs, _ = go(512)
+    ctx.hooks.pop("xof_stream", None)
+    got = [x for x in ev["push"][:len(want)]]
+    R.check(len(got) == len(want) and all(x == (w, w) for x, w in zip(got, want)), PFX + "-endian", "hash_to_point",
+            f"on the pinned stream prefix {bytes(prefix).hex()} the first pushed coefficients are {want}: consecutive big-endian byte pairs, "
+            f"the rejected pairs ffff and f005 consume their bytes, f004 (= 5q - 1) is accepted",
+            f"pinned stream prefix {bytes(prefix).hex()}: first pushed coefficients {got}, expected {want}", key="endian")
     # threshold agrees with the reference implementation
     for n in (512, 1024):
         pq = pqclean(n)
